@@ -1117,7 +1117,8 @@ impl Template {
 
     fn build_hash_stmt(&self, this: TokenStream) -> TokenStream {
         let this = self.apply(this);
-        quote_spanned!(this.span()=> ::core::hash::Hash::hash(&(#this), __state);)
+        let span = this.span().resolved_at(Span::call_site());
+        quote_spanned!(span=> ::core::hash::Hash::hash(&(#this), __state);)
     }
 }
 fn build_to_index_fn(variants: &[VariantEntry]) -> TokenStream {
